@@ -4,7 +4,7 @@ exit 0: every obligation held (or only known findings failed); exit 1 + VIOLATIO
 counterexample that is not a known finding; exit 2: tooling failure (never reported as a violation).
 """
 import os, sys, json, time, argparse, traceback
-from concurrent.futures import ProcessPoolExecutor, as_completed
+from concurrent.futures import ThreadPoolExecutor, as_completed
 from . import runner, pipeline as P
 
 ROOT = P.ROOT
@@ -36,12 +36,27 @@ def match_known(known, prop, obl_id, cex):
 
 
 def _work(args):
+    """run one harness file in its own process under a hard wall-clock limit"""
     path, tier, seed, only, verbose = args
+    import subprocess, tempfile
+    limit = int(os.environ.get("VERIF_FILE_LIMIT_S", "1800" if tier == "thorough" else "420"))
+    out = tempfile.mktemp(prefix="vfres.", suffix=".json", dir=os.path.join(P.BUILD))
+    cmd = [sys.executable, "-m", "vf.worker", path, tier, str(seed), out, ",".join(only or [])]
+    t0 = time.time()
     try:
-        return runner.run_obligation_file(path, tier, seed, only=only, verbose=verbose)
-    except Exception as e:
-        return [{"id": os.path.basename(path), "prop": "?", "status": "error", "error": "%s: %s" % (type(e).__name__, e),
-                 "trace": traceback.format_exc()[-2000:]}]
+        p = subprocess.run(cmd, cwd=ROOT, stdout=subprocess.PIPE, stderr=subprocess.PIPE, text=True, timeout=limit)
+        if os.path.exists(out):
+            res = json.load(open(out))
+            os.unlink(out)
+            return res
+        err = "worker exited %d: %s" % (p.returncode, p.stderr[-1500:])
+        st = "error"
+    except subprocess.TimeoutExpired:
+        err = "no verdict within the %d s wall-clock limit of this tier (reported as inconclusive, never as success)" % limit
+        st = "inconclusive"
+    obls = [o for o in runner.parse_header(path) if (tier == "thorough" or o.tier == "Q") and (not only or o.id in only)]
+    return [{"id": o.id, "prop": o.prop, "engine": o.engine, "entry": o.entry, "harness": os.path.relpath(path, ROOT),
+             "status": st, "error": err, "wall_s": round(time.time() - t0, 1), "bounds": o.text.get("bounds", "")} for o in obls]
 
 
 def main(argv=None):
@@ -66,14 +81,12 @@ def main(argv=None):
     # the library IR is built once, before the workers start
     P.build_lib(log=lambda *x: print(*x, file=sys.stderr))
     files = sorted(set(o.path for o in obls))
-    from . import cbmc_runner
     results = []
     jobs = []
-    with ProcessPoolExecutor(max_workers=max(1, min(a.jobs, len(files)))) as ex:
+    os.makedirs(P.BUILD, exist_ok=True)
+    with ThreadPoolExecutor(max_workers=max(1, min(a.jobs, len(files)))) as ex:
         for f in files:
-            eng = set(o.engine for o in runner.parse_header(f))
-            fn = cbmc_runner.work if eng == {"A"} else _work
-            jobs.append(ex.submit(fn, (f, tier, seed, a.only, a.v)))
+            jobs.append(ex.submit(_work, (f, tier, seed, a.only, a.v)))
         for j in as_completed(jobs):
             results.extend(j.result())
     results = [r for r in results if r.get("prop") in (a.prop, "?")]
